@@ -234,6 +234,12 @@ pub mod prim {
                     final(self).parent_of@ == old(self).parent_of@.insert(value.ident, parent),
         { unimplemented!() }
 
+        // value.parent_id(): the parent link as the shared world records it
+        #[verifier::external_body]
+        pub fn world_parent_id(&self, value: &ItemRef) -> (r: Option<usize>)
+            ensures r == (if self.parent_of@.dom().contains(value.ident) { self.parent_of@[value.ident] } else { None::<usize> }),
+        { unimplemented!() }
+
         //@@ element_insert_by_id
 
         //@@ element_delete_by_id
@@ -268,6 +274,12 @@ pub mod prim {
                     final(self).parent_of@ == old(self).parent_of@.insert(value.ident, parent),
         { unimplemented!() }
 
+        // value.parent_id(): the parent link as the shared world records it
+        #[verifier::external_body]
+        pub fn world_parent_id(&self, value: &ItemRef) -> (r: Option<usize>)
+            ensures r == (if self.parent_of@.dom().contains(value.ident) { self.parent_of@[value.ident] } else { None::<usize> }),
+        { unimplemented!() }
+
         //@@ document_insert_by_id
     }
 
@@ -290,6 +302,12 @@ pub mod prim {
         pub fn world_set_parent_id(&mut self, value: &ItemRef, parent: Option<usize>)
             ensures final(self).ident == old(self).ident, final(self).values@ == old(self).values@,
                     final(self).parent_of@ == old(self).parent_of@.insert(value.ident, parent),
+        { unimplemented!() }
+
+        // value.parent_id(): the parent link as the shared world records it
+        #[verifier::external_body]
+        pub fn world_parent_id(&self, value: &ItemRef) -> (r: Option<usize>)
+            ensures r == (if self.parent_of@.dom().contains(value.ident) { self.parent_of@[value.ident] } else { None::<usize> }),
         { unimplemented!() }
 
         //@@ attribute_insert_by_id
@@ -332,7 +350,8 @@ def build():
                              ensures=[('C13+C14:refused_call_changes_nothing', f'r is Err ==> {UNCHANGED}'),
                                       ('C13:unknown_reference_is_refused', '!old(self).children@.contains(id) ==> r is Err'),
                                       ('C13:accepted_child_is_in_the_list_and_numbered', 'r is Ok ==> final(self).children@.contains(value.ident)')])
-    R_PRIM = [Rule('R43', r'value\.remove_from_parent\(\);', 'self.world_remove_from_parent(&value);', 'the item leaves its old parent: shared world made explicit on the receiver'),
+    R_PRIM = [Rule('R43', r'value\.parent_id\(\)', 'self.world_parent_id(&value)', 'the parent link lives in the shared world: read through the receiver'),
+              Rule('R43', r'value\.remove_from_parent\(\);', 'self.world_remove_from_parent(&value);', 'the item leaves its old parent: shared world made explicit on the receiver'),
               Rule('R43', r'value\.set_parent_id\(Some\(self\.id\(\)\)\);', 'let __me = self.id(); self.world_set_parent_id(&value, Some(__me));', 'same'),
               Rule('R11', r'self\.(children|values)\.borrow_mut\(\)\.', r'self.\1.', 'RefCell borrow dropped (A4)'),
               Rule('R44', r'match &\*value \{', 'match value.item() {', 'deref of Rc<XmlItem> -> accessor of the environment handle'),
